@@ -338,11 +338,12 @@ def run (s : State) : List Label → Option State
 
 /-! ### the discipline of `C09_partial`: no two transactions overlap on one cache name -/
 
-/-- `u` no longer uses name `n`: its storage transaction has ended and it holds no object of `n` -/
+/-- `u` no longer uses name `n`: its storage transaction has ended and, if it is a writer, it has
+released its object of `n` (`cacheTx.Commit`) -/
 def doneWith (s : State) (u : TxId) (n : Name) : Bool :=
   match s.txs u with
   | none => false
-  | some tx => !tx.isOpen && (tx.cur n).isNone
+  | some tx => !tx.isOpen && (!tx.isWrite || (tx.cur n).isNone)
 
 def endVerOf (s : State) (u : TxId) : Nat :=
   match s.txs u with
